@@ -310,6 +310,101 @@ def gen_session(rs, length=None):
     return {"kind": "session", "cases": cases}
 
 
+DEGENERATE_KINDS = ["collinear", "collinear", "coincident_nb", "zero_bond", "one_point"]
+# Open finding on the UNCHANGED tree (corpus/C06/open_nan_unrestrained_atom.json, reported to the owner): with the
+# restraints-only measure (every atom of the fixed molecule that survives the hydrogen filter is restrained) a mobile atom
+# that is not restrained does not enter the measure, so a trial in which ONLY that atom is nan (zero-length bond, 0/0 in the
+# bond-restoring step) is accepted as "equal measure".  Until the owner decides (fix / known finding) the generated
+# degenerate stream keeps at least one unrestrained heavy atom in the fixed molecule; set to True to search that corner too.
+DEGENERATE_FULL_RESTRAINTS = False
+DEFORM_WITH_2 = [None, [2], [0, 2], [1, 2], [0, 1, 2], [2, 0], [0, 1, 2]]
+
+
+def gen_degenerate_molspec(rs, kind, n=None):
+    """a connected molecule in a degenerate geometry for the single-atom move (0/0 in numpy, nan trial):
+    collinear     branched tree laid out on a line (an atom with >= 3 bonds whose neighbours are collinear); axis-aligned
+                  or diagonal with dyadic coordinates (exact in binary64)
+    coincident_nb the two neighbours of a 2-bond atom sit on the same point
+    zero_bond     two bonded atoms sit on the same point
+    one_point     every atom on the same point (placeholder coordinates)"""
+    if kind == "collinear":
+        n = n or int(rs.randint(4, 8))
+        hub = int(rs.randint(0, 2))
+        others = [k for k in range(n) if k != hub]
+        bonds = [(hub, k) for k in others[:3]]
+        for k in others[3:]:
+            bonds.append((int(rs.choice([j for j in range(k) if j != k])), k))
+        e = [(1, 0, 0), (0, 1, 0), (0, 0, 1), (1, 1, 0), (1, 0, -1)][int(rs.randint(0, 5))]
+        step = float(rs.choice([0.25, 0.125, 0.1875]))
+        base = rs.randint(0, 9, size=3) * 0.25
+        t = rs.permutation(n) if rs.randint(2) else np.arange(n)
+        pos = np.array([base + step * float(t[k]) * np.array(e, dtype=float) for k in range(n)])
+    elif kind == "coincident_nb":
+        n = n or int(rs.randint(3, 7))
+        bonds = [(k, k + 1) for k in range(n - 1)]
+        pos = np.cumsum(rs.normal(0, 0.09, size=(n, 3)), axis=0) + rs.uniform(0, 3, size=3)
+        m = int(rs.randint(1, n - 1))
+        pos[m + 1] = pos[m - 1]
+    elif kind == "zero_bond":
+        n = n or int(rs.randint(2, 7))
+        spec = gen_molspec(rs, n, "tree")
+        bonds = [tuple(b) for b in spec["bonds"]]
+        pos = np.array(spec["pos"])
+        a, b = bonds[int(rs.randint(len(bonds)))]
+        pos[max(a, b)] = pos[min(a, b)]
+    else:
+        n = n or int(rs.randint(2, 6))
+        bonds = molgen.random_tree(rs, n)
+        pos = np.tile(rs.randint(0, 9, size=3) * 0.25 + float(rs.choice([0.0, 0.1])), (n, 1))
+    atoms = [["%s%d" % (str(rs.choice(["C", "N", "B", "S"])), k), "DEG", 1] for k in range(n)]
+    return {"atoms": atoms, "pos": np.asarray(pos, dtype=float).tolist(), "bonds": [[int(a), int(b)] for a, b in bonds]}
+
+
+def gen_degenerate_case(rs, sf_range=(12, 36)):
+    """the mobile molecule is degenerate, the other one generic; both role assignments; single-atom moves enabled"""
+    kind = DEGENERATE_KINDS[int(rs.randint(len(DEGENERATE_KINDS)))]
+    mob = gen_degenerate_molspec(rs, kind)
+    n = len(mob["atoms"])
+    start_mobile = bool(rs.randint(2))
+    nf = n + int(rs.randint(1, 7)) if start_mobile else n + int(rs.randint(0, 6))
+    fixed = gen_molspec(rs, nf, "tree", 1, vel=bool(rs.randint(2)))
+    if all(is_h(a[0]) for a in fixed["atoms"]):
+        fixed["atoms"][0][0] = "C0"
+    start, end = (mob, fixed) if start_mobile else (fixed, mob)
+    case = {"kind": "pair", "start": start, "end": end, "degenerate": kind}
+    case.update(gen_options(rs, len(start["atoms"]), len(end["atoms"])))
+    if not DEGENERATE_FULL_RESTRAINTS:
+        if nf >= 2:
+            fixed["atoms"][0][0], fixed["atoms"][1][0] = "C0", "N1"
+        rk = rs.randint(0, 3)
+        case["restr"] = None if rk == 0 else ([] if rk == 1 or nf < 2 else
+                                              [[int(rs.randint(len(start["atoms"]))), int(rs.randint(len(end["atoms"])))]])
+    d = DEFORM_WITH_2[int(rs.randint(len(DEFORM_WITH_2)))]
+    case["deform"] = None if d is None else list(d)
+    sf = int(rs.randint(*sf_range))
+    case["sf"] = max(4, min(sf, 200 // n))
+    return case
+
+
+def demo_witness_cases():
+    """seeded/C06-3/demo.py: a branched 5-bead molecule with all beads on the x axis / a 3-bead chain with all beads on
+    one point, aligned on a generic 8-atom chain, STEPS_FACTOR 60, default restraints and hydrogens"""
+    rng = np.random.RandomState(12345)
+    big_pos = np.cumsum(rng.normal(0, 0.12, (8, 3)), axis=0) + 1.0
+    big = {"atoms": [["C%d" % (i + 1), "BIG", 1] for i in range(8)], "pos": big_pos.tolist(),
+           "bonds": [[i, i + 1] for i in range(7)]}
+    a = {"atoms": [["B%d" % (i + 1), "CGA", 1] for i in range(5)], "pos": [[0.25 * i, 0.0, 0.0] for i in range(5)],
+         "bonds": [[0, 1], [1, 2], [1, 3], [3, 4]]}
+    b = {"atoms": [["B%d" % (i + 1), "CGB", 1] for i in range(3)], "pos": [[0.5, 0.5, 0.5]] * 3, "bonds": [[0, 1], [1, 2]]}
+    out = []
+    for small, deform, seed, tag in ((a, [0, 2], 0, "collinear"), (a, [0, 1, 2], 3, "collinear"),
+                                     (b, [0, 1, 2], 0, "one_point"), (b, [0, 1, 2], 1, "one_point")):
+        out.append({"kind": "pair", "start": json.loads(json.dumps(small)), "end": json.loads(json.dumps(big)),
+                    "restr": None, "deform": deform, "ign": True, "autog": True, "sf": 60, "seed": seed,
+                    "degenerate": tag})
+    return out
+
+
 def gen_error_case(rs):
     """inputs on which align_molecules raises: mobile molecule not connected, no bond in the larger molecule,
     an atom name without letters in the larger molecule (ignore_hydrogens)"""
@@ -371,12 +466,14 @@ def capped_passes(cap):
     the function itself is the implementation's"""
     import gaddlemaps._backend as B
     saved = B.accept_metropolis
-    count = [0]
+    count = [0, 0]          # passes, passes whose trial measure is nan
 
     def counted(*a, **kw):
         count[0] += 1
         if count[0] > cap:
             raise RunAway()
+        if len(a) > 1 and a[1] != a[1]:
+            count[1] += 1
         return saved(*a, **kw)
     B.accept_metropolis = counted
     try:
@@ -386,21 +483,24 @@ def capped_passes(cap):
 
 
 def run_plain(start, end, case):
-    """one alignment on the implementation.  Returns (ali, exception or None)"""
+    """one alignment on the implementation.  Returns (ali, exception or None); run_plain.nan_trials = number of passes
+    of that run whose trial measure was nan"""
     import gaddlemaps._alignment as A
     restr, deform, ign, autog = call_args(case)
     state = np.random.get_state()
     err = None
     ali = None
+    run_plain.nan_trials = 0
     try:
         with steps_factor(case["sf"]), contextlib.redirect_stdout(io.StringIO()), np.errstate(all="ignore"), \
-                capped_passes(pass_cap(case, min(len(start), len(end)))):
+                capped_passes(pass_cap(case, min(len(start), len(end)))) as count:
             np.random.seed(case["seed"])
             ali = A.Alignment(start, end)
             try:
                 ali.align_molecules(restr, deform, ign, autog)
             except Exception as ex:     # noqa
                 err = ex
+            run_plain.nan_trials = count[1]
     finally:
         np.random.set_state(state)
     return ali, err
@@ -762,7 +862,10 @@ def oracle_case(case, repeat=True):
     if bad:
         return bad, None
     if not (np.isfinite(after_s["pos"]).all() and np.isfinite(after_e["pos"]).all()):
-        bad.append("non-finite coordinates")
+        bad.append("non-finite coordinates after the alignment (%d of %d in start, %d of %d in end; %d nan trial "
+                   "configurations were judged during the search)" %
+                   (int((~np.isfinite(after_s["pos"])).sum()), after_s["pos"].size,
+                    int((~np.isfinite(after_e["pos"])).sum()), after_e["pos"].size, run_plain.nan_trials))
         return bad, None
     d = before_e["pos"].mean(axis=0) - before_s["pos"].mean(axis=0)
     if ns < ne:
@@ -779,13 +882,19 @@ def oracle_case(case, repeat=True):
     n = mob_b["n"]
     if ne == 1 and not bits_equal(after_e["pos"], before_e["pos"]):
         bad.append("single-atom end molecule was touched")
-    # bonded distances of the other molecule when its bond graph is acyclic
-    if is_tree(n, mob_adj):
+    # bonded distances of the other molecule when its bond graph is acyclic.  Degenerate geometries: a bond of length
+    # zero has no direction to restore, and a run in which numpy produced a nan trial (0/0) is judged on the clauses
+    # that stay meaningful (finiteness above all): bonds are compared where the initial length is non-zero and no nan
+    # trial occurred
+    nan_trials = run_plain.nan_trials
+    if is_tree(n, mob_adj) and not nan_trials:
         worst = 0.0
         for i, l in enumerate(mob_adj):
             for j in l:
-                worst = max(worst, abs(np.linalg.norm(mob_a["pos"][i] - mob_a["pos"][j]) -
-                                       np.linalg.norm(mob_b["pos"][i] - mob_b["pos"][j])))
+                d0 = np.linalg.norm(mob_b["pos"][i] - mob_b["pos"][j])
+                if d0 == 0.0:
+                    continue
+                worst = max(worst, abs(np.linalg.norm(mob_a["pos"][i] - mob_a["pos"][j]) - d0))
         if worst > TOL:
             bad.append("a bonded distance of the mobile (%s) molecule changed by %.3g nm (acyclic bond graph)" %
                        ("start" if ns < ne else "end", worst))
@@ -795,7 +904,8 @@ def oracle_case(case, repeat=True):
         dev = np.abs(pair_dists(mob_a["pos"]) - pair_dists(mob_b["pos"])).max() if n else 0.0
         if dev > TOL:
             bad.append("single-atom moves disabled but a pairwise distance of the mobile molecule changed by %.3g nm" % dev)
-    outcome = {"start": [x.hex() for x in after_s["pos"].ravel()], "end": [x.hex() for x in after_e["pos"].ravel()]}
+    outcome = {"start": [x.hex() for x in after_s["pos"].ravel()], "end": [x.hex() for x in after_e["pos"].ravel()],
+               "nan_trials": int(nan_trials)}
     # bit-identical when repeated with the same seed
     if repeat:
         ali2, err2 = run_plain(start, end, case)
@@ -875,6 +985,7 @@ def check_sessions(ctx, sessions, tag, jobs=14):
         first_bad = None
         for n, (a, b) in enumerate(zip(r1, r2)):
             S["alignments_in_sessions"] = S.get("alignments_in_sessions", 0) + 1
+            S["nan_trials_rejected"] = S.get("nan_trials_rejected", 0) + int((a["outcome"] or {}).get("nan_trials", 0))
             bad = list(a["bad"])
             if not bad and b["bad"]:
                 bad = ["(PYTHONHASHSEED=%d) %s" % (17 * 2 + 3, x) for x in b["bad"]]
@@ -912,6 +1023,16 @@ def corpus_cases():
         c["deform"] = None if (ns + ne) % 3 == 0 else ([0, 1, 2] if min(ns, ne) >= 2 and ne > 1 else [0, 1])
         c["sf"] = 8
         out.append(c)
+    out.extend(demo_witness_cases())          # degenerate mobile molecules (seeded/C06-3 witness)
+    for kind, nmob, start_mobile in (("collinear", 5, False), ("one_point", 3, False), ("zero_bond", 4, True),
+                                     ("coincident_nb", 4, True), ("coincident_nb", 3, False)):
+        mob = gen_degenerate_molspec(rs, kind, nmob)
+        fixed = gen_molspec(rs, nmob + (3 if start_mobile else 0), "tree")
+        if all(is_h(a[0]) for a in fixed["atoms"]):
+            fixed["atoms"][0][0] = "C0"
+        start, end = (mob, fixed) if start_mobile else (fixed, mob)
+        out.append({"kind": "pair", "start": start, "end": end, "restr": [], "deform": [0, 2] if nmob % 2 else None,
+                    "ign": True, "autog": True, "sf": 40, "seed": 7 + nmob, "degenerate": kind})
     return out
 
 
@@ -919,12 +1040,23 @@ def corpus(ctx):
     S = ctx.cov["S"]
     cases = corpus_cases()
     S["corpus"] = len(cases)
+    S["corpus_nan_trials"] = 0
     for c in cases:
-        bad, _ = oracle_case(c)
+        bad, out = oracle_case(c)
+        S["corpus_nan_trials"] += (out or {}).get("nan_trials", 0)
         ctx.count(("corpus", json.dumps(c, sort_keys=True)))
         if bad:
             ctx.violation("alignment: " + "; ".join(bad), c, key="corpus")
     molgen.purge()
+    # open finding on the unchanged tree: evaluated only once the owner has listed its key in known_findings.txt
+    # (then reported as KNOWN-FINDING while it fails, silent after a repair)
+    path = os.path.join(lib.ROOT, "corpus", "C06", "open_nan_unrestrained_atom.json")
+    if os.path.exists(path) and any(k == "nan-unrestrained-atom" for k, _ in ctx.known):
+        c = json.load(open(path))["replay"]
+        bad, _ = oracle_case(c)
+        if bad:
+            ctx.violation("alignment: " + "; ".join(bad), c, key="nan-unrestrained-atom")
+        molgen.purge()
 
 
 def gen_K_cases(ctx, rs):
@@ -943,6 +1075,8 @@ def gen_K_cases(ctx, rs):
         cases.append(gen_case(rs))
     for _ in range(n_err):
         cases.append(gen_error_case(rs))
+    for _ in range(ctx.n(14, 120)):
+        cases.append(gen_degenerate_case(rs, sf_range=(6, 13)))
     return cases
 
 
@@ -957,7 +1091,7 @@ def correspondence(ctx):
     terms, meta, proto = [], [], []
     hist = {"tie": 0, "start_mobile": 0, "end_mobile": 0, "no_optimiser_call": 0, "error": 0, "passes": 0,
             "accepted": 0, "kind0": 0, "kind1": 0, "kind2": 0, "hydrogens_filtered": 0, "restrained": 0, "shipped": 0,
-            "mobile_cyclic": 0, "runaway_skipped": 0}
+            "mobile_cyclic": 0, "runaway_skipped": 0, "degenerate": 0, "nan_trials_rejected": 0}
     sizes = {}
     t0 = time.time()
     for c in cases:
@@ -973,6 +1107,8 @@ def correspondence(ctx):
         sizes["%d-%d" % (10 * (ns // 10), 10 * (ne // 10))] = sizes.get("%d-%d" % (10 * (ns // 10), 10 * (ne // 10)), 0) + 1
         if "shipped" in c["start"]:
             hist["shipped"] += 1
+        if c.get("degenerate"):
+            hist["degenerate"] += 1
         if obs["err"] is not None:
             hist["error"] += 1
         elif rec.args is None:
@@ -980,6 +1116,7 @@ def correspondence(ctx):
         else:
             done = [s for s in rec.steps if "acc" in s]
             hist["passes"] += len(done)
+            hist["nan_trials_rejected"] += sum(1 for s in done if s["e1"] != s["e1"] and not s["acc"])
             hist["accepted"] += sum(1 for s in done if s["acc"])
             for s in done:
                 if s["kind"] in (0, 1, 2):
@@ -1067,13 +1204,18 @@ def oracle(ctx, scale):
         if rs.randint(0, 3) == 0:
             cs.append(gen_shipped(rs))
         sessions.append({"kind": "session", "cases": cs})
-    hist = {"tie": 0, "start_mobile": 0, "end_mobile": 0}
+    n_deg = ctx.n(10, 60) * scale
+    for _ in range(n_deg):          # degenerate mobile molecules, single-atom moves enabled
+        sessions.append({"kind": "session", "cases": [gen_degenerate_case(rs) for _ in range(int(rs.randint(3, 7)))]})
+    hist = {"tie": 0, "start_mobile": 0, "end_mobile": 0, "degenerate": 0}
     for s in sessions:
         for c in s["cases"]:
             ns = len(c["start"].get("atoms", [])) or 0
             ne = len(c["end"].get("atoms", [])) or 0
             if ns and ne:
                 hist["tie" if ns == ne else ("start_mobile" if ns < ne else "end_mobile")] += 1
+            if c.get("degenerate"):
+                hist["degenerate"] += 1
             ctx.count(("S", c["seed"], ns, ne))
     fails = check_sessions(ctx, sessions, "session")
     S["sessions_x%d" % scale] = len(sessions)
